@@ -176,7 +176,9 @@ public:
   
   
   // postcond: final states that we want to propagate backwards  
-  void run_backward(AbsDom postcond) { 
+  void run_backward(AbsDom postcond) {
+    // forget the results (and the forward invariants) of any previous run
+    clear();
     compute_blocks_reaching_exit();
     this->run(postcond);
   }
@@ -185,8 +187,11 @@ public:
   void run_backward(AbsDom postcond,
 		    const std::unordered_map<typename CFG::basic_block_label_t,
 		    AbsDom> &fwd_invariants) {
+    // forget the results (and the forward invariants) of any previous run
+    clear();
     m_invariants.insert(fwd_invariants.begin(), fwd_invariants.end());
-    run_backward(postcond);
+    compute_blocks_reaching_exit();
+    this->run(postcond);
   }
 
   iterator begin() { return m_preconditions.begin(); }
